@@ -156,12 +156,32 @@ def run_case(case):
                 # tolerance-controlled: accuracy class and monotonicity under tightening
                 res = []
                 tols = [1e-6, 1e-9] if integ == 'ias15' else [1e-6, 1e-9, 1e-12]
+                # BS controls each coordinate's error against eps_abs + eps_rel |y| (documented; "the code units matter"): the same system
+                # expressed in other units of length and velocity (factor lam = 2^+-20 for both, G x lam^3: an exact similarity) with the
+                # tolerances expressed accordingly must stay in the same accuracy class.  'tiny': relative tolerance tol with an absolute
+                # floor far below the coordinates; 'huge': absolute tolerance tol*lam with a negligible relative part.
+                scal = rr.choice([None, None, 'tiny', 'huge']) if integ == 'bs' else None
+                lam = {None: 1.0, 'tiny': 2.0 ** -20, 'huge': 2.0 ** 20}[scal]
+                if scal:
+                    counters['bs_runs_in_rescaled_units:' + scal] = counters.get('bs_runs_in_rescaled_units:' + scal, 0) + 1
                 for tol in tols:
                     opts = {'ri_ias15.epsilon': tol, 'ri_ias15.adaptive_mode': rr.choice([1, 2, 3])} if integ == 'ias15' else {'ri_bs.eps_rel': tol, 'ri_bs.eps_abs': tol}
+                    if scal == 'tiny':
+                        opts = {'ri_bs.eps_rel': tol, 'ri_bs.eps_abs': tol * lam * 1e-3}
+                    elif scal == 'huge':
+                        opts = {'ri_bs.eps_rel': tol * 1e-3, 'ri_bs.eps_abs': tol * lam}
                     sim, _k = build(integ, opts, 40)
+                    if scal:
+                        sim.G = G * lam ** 3
+                        for p_ in sim.particles:
+                            p_.x *= lam; p_.y *= lam; p_.z *= lam; p_.vx *= lam; p_.vy *= lam; p_.vz *= lam
                     sim.integrate(T, exact_finish_time=1)
                     if gt(abs(sim.t - T), 1e-12 * abs(T)):
                         add('converge:did-not-reach-horizon:%s' % integ, '%s %s: t=%r, T=%r' % (desc0, opts, sim.t, T))
+                    if scal:
+                        for p_ in sim.particles:
+                            p_.x /= lam; p_.y /= lam; p_.z /= lam
+                        opts = dict(opts, units='x %g' % lam)
                     res.append((tol, err_of(sim), opts))
                 cls = 1e-9 if integ == 'ias15' else None
                 for tol, e, opts in res:
